@@ -113,6 +113,7 @@ type Explorer struct {
 	Fallbacks int
 	snaps     []*snapshot
 	qcache    sync.Map
+	pushed    sync.Map
 	CacheHits int64
 	SnapUsed  int
 }
@@ -138,6 +139,22 @@ func (e *Explorer) push(prefix []int) {
 	e.work = append(e.work, prefix)
 	e.mu.Unlock()
 	e.cond.Signal()
+}
+
+// pushOnce queues a prefix unless the same prefix was queued before (DPOR backtrack points).
+func (e *Explorer) pushOnce(prefix []int) {
+	h1, h2 := uint64(14695981039346656037), uint64(0x9E3779B97F4A7C15)
+	for _, d := range prefix {
+		x := uint64(d) + 0x9E37
+		h1 = (h1 ^ x) * 1099511628211
+		h2 = (h2 + x + 0x632BE59BD9B4E019) * 0xD1342543DE82EF95
+		h2 ^= h2 >> 29
+	}
+	key := [3]uint64{h1, h2, uint64(len(prefix))}
+	if _, dup := e.pushed.LoadOrStore(key, true); dup {
+		return
+	}
+	e.push(prefix)
 }
 
 func (e *Explorer) obligation(id string) *Obligation {
